@@ -366,11 +366,11 @@ def _plan(prop, T):
                 ord_closure("dbg", "held", T, held_depth=3 if T else 2),
                 ord_random("dbg", "held", "maptree+settree+maptree-int+settree-int", 4800, T, profile="handles-held-across-inserts,small-mixed,medium,clear-and-reuse"),
                 ord_random("rel", "held", "maptree+settree", 4800, T, profile="handles-held-across-inserts,medium", seed_offset=3),
-                dict(flavour="rel", suite="big", args=dict(max_n=4000000 if T else 400000, probes="held"), shards=16, timeout=3400 if T else 150),
+                dict(flavour="rel", suite="big", args=dict(max_n=4000000 if T else 1600000, probes="held"), shards=16, timeout=3400 if T else 150),
                 miri("ord-random", 64, 8, T, mon="held", coll="maptree+settree", profile="handles-held-across-inserts,small-mixed", maxlen=40),
             ],
             rule="evaluation = one held handle re-checked after later insertions / lookups: value_by_index(handle) is still the same entry and first_index_less(key) == handle; distinct non-trivial = distinct (reference key set, number of held handles) + closed canonical shapes",
-            require={"held_handles_rechecked": 200000, "handles_taken": 50000, "states": 3000, "max_entries_built": 300000},
+            require={"held_handles_rechecked": 200000, "handles_taken": 50000, "states": 3000, "max_entries_built": 1500000, "growth_checkpoints_with_held_handles": 100},
             exhaustive_scope="every reachable shape over the listed universes x a handle for every stored key x every sequence of 2 (thorough: 3) further insertions",
             assumptions=["handles are re-acquired after every deletion / clear, as the property allows"],
         )
